@@ -22,11 +22,15 @@ ROOT_PARENT = "/symfs"
 
 
 class FSModel:
-    def __init__(self, cands: dict, lines: dict | None = None, order_symbolic: bool = False, fixed: dict | None = None, lines_fixed: bool = False):
+    def __init__(self, cands: dict, lines: dict | None = None, order_symbolic: bool = False, fixed: dict | None = None, lines_fixed: bool = False, links: dict | None = None):
         """cands: relative path -> 'dir' | 'file' (parents must be listed too; the first component is the root
         directory, which always exists).  lines: relative file path -> list of candidate source lines.
         fixed: relative path -> bool, existence decided by the instance (not symbolic)."""
         self.cands = dict(cands)
+        # links: relative path of a directory symlink -> relative path of its target directory.  The link and the
+        # paths below it are listed in cands like ordinary entries; a path below a link exists iff the link exists and
+        # the corresponding target path exists, holds the target's text, and resolve() maps it to the target path
+        self.links = dict(links or {})
         self.lines = dict(lines or {})
         self.order_symbolic = order_symbolic
         self.fixed = dict(fixed or {})
@@ -47,12 +51,26 @@ class FSModel:
             return s[len(ROOT_PARENT) + 1:]
         return None
 
+    def target(self, rel: str) -> str | None:
+        """The path a link, or a path below a link, stands for (None for ordinary paths)."""
+        for link, tgt in self.links.items():
+            if rel == link:
+                return tgt
+            if rel.startswith(link + "/"):
+                return tgt + rel[len(link):]
+        return None
+
     def exists(self, rel: str) -> bool:
         if rel not in self.cands:
             return False
         if "/" not in rel:
             return True
         if not self.exists(os.path.dirname(rel)):
+            return False
+        t = self.target(rel)
+        if t is not None and rel not in self.links:
+            return self.exists(t)
+        if t is not None and not self.exists(t):
             return False
         if rel in self.fixed:
             return self.fixed[rel]
@@ -70,6 +88,9 @@ class FSModel:
         return out
 
     def present_lines(self, rel: str) -> list[str]:
+        t = self.target(rel)
+        if t is not None:
+            return self.present_lines(t)
         if self.lines_fixed:
             return list(self.lines.get(rel, []))
         return [ln for i, ln in enumerate(self.lines.get(rel, [])) if ENGINE.branch(("l", rel, i)) == 1]
@@ -78,7 +99,7 @@ class FSModel:
         return "x = 1\n" + "".join(ln + "\n" for ln in self.present_lines(rel))
 
     def all_keys(self) -> list:
-        ks = [(("x", p), 2) for p in self.cands if "/" in p and p not in self.fixed]
+        ks = [(("x", p), 2) for p in self.cands if "/" in p and p not in self.fixed and (self.target(p) is None or p in self.links)]
         if not self.lines_fixed:
             ks += [(("l", p, i), 2) for p, ls in self.lines.items() for i in range(len(ls))]
         return ks
@@ -87,18 +108,39 @@ class FSModel:
     def concrete(self, assign: dict):
         """(existing relative paths, {file: present lines}) under a total/partial assignment (missing -> 0)."""
         ex = set()
-        for p in sorted(self.cands, key=lambda q: q.count("/")):
-            if "/" not in p:
-                ex.add(p)
-            elif os.path.dirname(p) in ex and (self.fixed[p] if p in self.fixed else assign.get(("x", p), 0) == 1):
-                ex.add(p)
+        own = lambda p: self.fixed[p] if p in self.fixed else assign.get(("x", p), 0) == 1  # noqa: E731
+        for _ in range(2 if self.links else 1):  # second pass: paths below links, whose targets may sort later
+            for p in sorted(self.cands, key=lambda q: q.count("/")):
+                if "/" not in p:
+                    ex.add(p)
+                    continue
+                if os.path.dirname(p) not in ex:
+                    continue
+                t = self.target(p)
+                if t is None:
+                    if own(p):
+                        ex.add(p)
+                elif p in self.links:
+                    if t in ex and own(p):
+                        ex.add(p)
+                elif t in ex:
+                    ex.add(p)
         txt = {p: [ln for i, ln in enumerate(ls) if self.lines_fixed or assign.get(("l", p, i), 0) == 1] for p, ls in self.lines.items() if p in ex}
+        for p in ex:
+            t = self.target(p)
+            if t is not None and t in txt:
+                txt[p] = list(txt[t])
         return ex, txt
 
     def materialise(self, assign: dict, base: str) -> str:
         ex, txt = self.concrete(assign)
         for p in sorted(ex, key=lambda q: q.count("/")):
             full = os.path.join(base, p)
+            if p in self.links:
+                os.symlink(os.path.join(base, self.links[p]), full, target_is_directory=True)
+                continue
+            if self.target(p) is not None:
+                continue  # reached through the link
             if self.cands[p] == "dir":
                 os.makedirs(full, exist_ok=True)
             else:
@@ -128,7 +170,9 @@ class SymPath(pathlib.PosixPath):
         return [SymPath(ROOT_PARENT + "/" + c) for c in _FS.children(r)]
 
     def resolve(self, strict=False):  # noqa: D102
-        return self
+        r = _FS.rel(self)
+        t = _FS.target(r) if r is not None else None
+        return SymPath(ROOT_PARENT + "/" + t) if t is not None else self
 
     def absolute(self):  # noqa: D102
         return self
